@@ -84,6 +84,8 @@ fn run_job(w: &World, map: &Beatmap, job: &Job) -> String {
         3 => strains_for_mode(&d, map, target).map_or_else(|e| e, |a| format!("{:016x}", crate::engine::fnv(a.dump().line().as_bytes()))),
         4 => w.score.apply(perf_for_mode(map, target).difficulty(d)).calculate().dump().line(),
         6 => format!("{:016x}", map.bpm().to_bits()),
+        // the generic entry point on the map's own mode
+        7 => d.calculate(map).dump().line(),
         _ => {
             let mut dg = ds.clone();
             dg.passed = None;
@@ -143,12 +145,31 @@ fn gen_world(t: &mut Tape) -> (World, Vec<Job>) {
             d
         })
         .collect();
+    let mut dspecs = dspecs;
+    // a quarter of the worlds: the second settings object is the first one with the with_mods flag of every
+    // override flipped (and an override added if there is none) - settings that differ in one bit of one field
+    if t.chance(1, 4) {
+        let mut twin = dspecs[0].clone();
+        if twin.ar.is_none() && twin.od.is_none() {
+            twin.od = Some((8.0, false));
+            dspecs[0].od = Some((8.0, true));
+            twin.mods.bits |= crate::gen::diff::HR;
+            dspecs[0].mods.bits |= crate::gen::diff::HR;
+        } else {
+            for o in [&mut twin.ar, &mut twin.cs, &mut twin.hp, &mut twin.od] {
+                if let Some((_, w)) = o {
+                    *w = !*w;
+                }
+            }
+        }
+        dspecs[1] = twin;
+    }
     let score = gen_score_spec(t, 20);
     let n_jobs = t.range(8, 64) as usize;
     let jobs = (0..n_jobs)
         .map(|_| Job {
             map: if t.chance(1, 2) { 0 } else { t.below_usize(n_maps) },
-            kind: if seed_heavy { *t.pick(&[2u8, 2, 3, 4, 5]) } else if conversion_heavy { *t.pick(&[1u8, 1, 2, 2, 3]) } else if tie_world { *t.pick(&[6u8, 6, 6, 2, 0, 1, 3, 4, 5]) } else { t.below(7) as u8 },
+            kind: if seed_heavy { *t.pick(&[2u8, 2, 3, 4, 5, 7]) } else if conversion_heavy { *t.pick(&[1u8, 1, 2, 2, 3]) } else if tie_world { *t.pick(&[6u8, 6, 6, 2, 0, 1, 3, 4, 5]) } else { t.below(8) as u8 },
             mode: if seed_heavy { *t.pick(&[1u8, 3]) } else if conversion_heavy { *t.pick(&[3u8, 3, 3, 1]) } else { *t.pick(&[1u8, 1, 0, 2, 3]) },
             d: t.below_usize(3),
             yields: t.below(4) as u8,
@@ -168,8 +189,10 @@ fn case_pool(t: &mut Tape, info: &mut CaseInfo) -> Result<(), String> {
         info.sample = Some(json!({"maps": w.specs.iter().map(MapSpec::sample).collect::<Vec<_>>(), "jobs": format!("{jobs:?}").chars().take(1200).collect::<String>(),
                                   "threads": n_threads, "shared_queue": shared_queue, "sharing": if use_arc { "Arc<Beatmap>" } else { "&Beatmap via thread::scope" }}));
     }
-    // sequential reference
-    let sequential: Vec<String> = jobs.iter().map(|j| run_job(&w, &w.maps[j.map], j)).collect();
+    // sequential reference: before the threaded run in half of the cases, after it in the other half (a value
+    // cached by the first pass must not hide what the second pass would compute)
+    let sequential_first = t.coin();
+    let mut sequential: Vec<String> = if sequential_first { jobs.iter().map(|j| run_job(&w, &w.maps[j.map], j)).collect() } else { Vec::new() };
     // threaded run
     let results: Vec<Mutex<Option<String>>> = jobs.iter().map(|_| Mutex::new(None)).collect();
     let next = AtomicUsize::new(0);
@@ -189,6 +212,9 @@ fn case_pool(t: &mut Tape, info: &mut CaseInfo) -> Result<(), String> {
                 s.spawn(move || loop_jobs(w, jobs, results, next, assignment, th, shared_queue, &|i| &w.maps[i]));
             }
         });
+    }
+    if !sequential_first {
+        sequential = jobs.iter().map(|j| run_job(&w, &w.maps[j.map], j)).collect();
     }
     for (i, (seq, par)) in sequential.iter().zip(&results).enumerate() {
         let par = par.lock().unwrap().clone();
@@ -379,7 +405,7 @@ pub fn property() -> Property {
         subchecks: vec![
             SubCheck {
                 name: "thread-pool-vs-sequential",
-                rule: "job list of 8-64 jobs over 2-4 maps (decode, convert_ref, difficulty, strains, performance, gradual drain, bpm; half of the jobs on map 0 so maps are shared) x thread count 2..16 x assignment (generated static partition or shared atomic queue) x sharing mode (&Beatmap through thread::scope or Arc<Beatmap>) x per-job perturbation (0-3 yield_now, optional spin); a third of the job lists is seed-heavy (taiko/mania calculations under lazer Random mods with distinct seeds per settings object), a quarter conversion-heavy (2-4 different osu maps of up to 60 objects converted to mania/taiko concurrently), a tenth of the maps are marathons (all gaps 100-300 s), a fifth of the ordinary worlds has a tie-heavy map 0 (equal accumulated beat-length durations) with mostly bpm jobs. Oracle: the result vector of the threaded run equals the sequential run of the same job list (canonical lines / digests). Run on the default and the `sync` build (thorough: additionally under ThreadSanitizer). Non-trivial: >=2 threads touch the same map and >=1 taiko calculation job.",
+                rule: "job list of 8-64 jobs over 2-4 maps (decode, convert_ref, difficulty, strains, performance, gradual drain, bpm, generic Difficulty::calculate; half of the jobs on map 0 so maps are shared) x thread count 2..16 x assignment (generated static partition or shared atomic queue) x sharing mode (&Beatmap through thread::scope or Arc<Beatmap>) x per-job perturbation (0-3 yield_now, optional spin); a third of the job lists is seed-heavy (taiko/mania calculations under lazer Random mods with distinct seeds per settings object), a quarter conversion-heavy (2-4 different osu maps of up to 60 objects converted to mania/taiko concurrently), a tenth of the maps are marathons (all gaps 100-300 s), a fifth of the ordinary worlds has a tie-heavy map 0 (equal accumulated beat-length durations) with mostly bpm jobs. a quarter of the worlds has two settings objects that differ only in the with_mods flags of their overrides. Oracle: the result vector of the threaded run equals the sequential run of the same job list (the sequential pass runs before the threaded one in half of the cases and after it in the other half) (canonical lines / digests). Run on the default and the `sync` build (thorough: additionally under ThreadSanitizer). Non-trivial: >=2 threads touch the same map and >=1 taiko calculation job.",
                 quick: 1500,
                 thorough: 25_000,
                 tape_len: 3400,
